@@ -60,6 +60,8 @@ async def write(src: StreamWrapper, dst: StreamWrapper, bufsize: int) -> None:
             if isinstance(src, StreamWrapper)
             else src.read(bufsize)
         )
+        if len(buf) == 0:
+            raise tarfile.ReadError("unexpected end of data")
         bufsize -= len(buf)
         await dst.write(buf) if isinstance(dst, StreamWrapper) else dst.write(buf)
 
@@ -284,6 +286,8 @@ class FileStreamReaderWrapper(StreamWrapper):
             await self.stream.seek(offset + (self.position - start))
             buf = await self.stream.read(length)
             self.position += len(buf)
+            if len(buf) < length:
+                raise tarfile.ReadError("unexpected end of data")
             return buf
         else:
             self.position += length
@@ -324,8 +328,9 @@ class SeekableStreamReaderWrapper(TellableStreamWrapper):
 
     async def seek(self, offset: int) -> None:
         if offset > self.position:
-            await self.stream.read(offset - self.position)
-            self.position = offset
+            await self.read(offset - self.position)
+            if self.position < offset:
+                raise tarfile.ReadError("unexpected end of data")
         elif offset < self.position:
             raise tarfile.ReadError("Cannot seek backward with streams")
 
